@@ -18,7 +18,7 @@ START_KINDS = ["empty", "ctor", "epm", "prefix_map", "priority", "reverse", "cha
                "remap_curie", "remap_uri", "rewire"]
 RELATIONS = [
     "fresh", "collide_curie", "collide_uri", "collide_both_same", "collide_two",
-    "case_only", "identical", "new_synonyms_only", "syn_vs_canon", "invalid", "same_object",
+    "case_only", "identical", "new_synonyms_only", "syn_vs_canon", "syn_case_only", "invalid", "same_object",
 ]
 PATTERNS = [None, None, "^\\d+$", "^[a-z]\\\\w+$", ""]     # "" is a legal, falsy pattern
 
@@ -248,7 +248,7 @@ class C05Machine(Machine):
             return "retry_rejected"
         if self.rejected and r < 0.32:
             return "other_side_of_rejected"
-        return rng.choice(RELATIONS[1:9])
+        return rng.choice(RELATIONS[1:10])
 
     def _fresh_tokens(self, pool, used):
         return [t for t in pool if t not in used]
@@ -323,6 +323,17 @@ class C05Machine(Machine):
                 elif free_c and rec["prefix"] in free_c:
                     rec["uri_prefix"] = r2.uri_prefix
                 rec["_force_merge"] = True
+        elif rel == "syn_case_only":
+            # fresh canonical names; the only link to an existing record is a synonym of the submission that
+            # equals one of its names up to case (either side)
+            rec["prefix"] = take(fresh_c, cfg["curie_pool"])
+            rec["uri_prefix"] = take(fresh_u, cfg["uri_pool"])
+            if rng.random() < 0.5:
+                vs = [v for v in (swapcase_variant(t) for t in sorted(r1.all_prefixes())) if v]
+                rec["prefix_synonyms"].append(rng.choice(vs) if vs else rng.choice(sorted(r1.all_prefixes())))
+            else:
+                vs = [v for v in (swapcase_variant(t) for t in sorted(r1.all_uri_prefixes())) if v]
+                rec["uri_prefix_synonyms"].append(rng.choice(vs) if vs else rng.choice(sorted(r1.all_uri_prefixes())))
         elif rel == "syn_vs_canon":
             # the submission's *synonym* hits an existing canonical value (or synonym)
             rec["prefix"] = take(fresh_c, cfg["curie_pool"])
@@ -527,6 +538,9 @@ class C05Machine(Machine):
             fpairs = list(dict.fromkeys(extra_pairs + fpairs))
         pre_focus = observe.answers(conv, fstrings, fpairs, full=False)
         self.focus = (fstrings, fpairs)
+        if self.n_calls % 3 == 0 and fpairs:
+            # ... and once more, one single key, as the very last lookup before the call
+            observe.answers(conv, fstrings[-1:], fpairs[-1:], full=False)
 
         err = None
         try:
@@ -560,7 +574,9 @@ class C05Machine(Machine):
         self.event("model_" + outcome)
         if op.get("omit_defaults") and (cs is True or merge is False):
             self.probe("flag_left_to_its_default")
-        post_focus = observe.answers(conv, fstrings, fpairs, full=False)   # the first lookups after the call
+        # the first lookups after the call, in REVERSED order: for every method the first key asked now is
+        # the last key asked before the call
+        post_focus = observe.answers(conv, fstrings[::-1], fpairs[::-1], full=False)
         post = self._snapshot()
 
         if err is not None:
@@ -724,7 +740,7 @@ class C05Machine(Machine):
         if fsnap != live:
             raise Violation(PROP, "fresh_mismatch", site, {"diff": observe.diff(fsnap, live), "op": op})
         if live_focus is not None and self.focus is not None:
-            ffresh = observe.answers(fresh, self.focus[0], self.focus[1], full=False)
+            ffresh = observe.answers(fresh, self.focus[0][::-1], self.focus[1][::-1], full=False)
             if ffresh != live_focus:
                 raise Violation(PROP, "fresh_mismatch", site,
                                 {"first_lookups_after_the_call": True, "diff": observe.diff(ffresh, live_focus), "op": op})
